@@ -22,7 +22,8 @@ import elementpath.aliases as ta
 
 from elementpath.protocols import XsdAttributeProtocol
 from elementpath.exceptions import ElementPathError
-from elementpath.namespaces import XSD_NAMESPACE, XSD_NOTATION, XSD_ANY_ATOMIC_TYPE, XSD_UNTYPED
+from elementpath.namespaces import XSD_NAMESPACE, XSD_NOTATION, XSD_ANY_ATOMIC_TYPE, \
+    XSD_UNTYPED, XSD_ANY_TYPE
 from elementpath.helpers import numeric_equal, numeric_not_equal, \
     node_position, get_double
 from elementpath.namespaces import XSD_ERROR, get_namespace, get_expanded_name
@@ -764,7 +765,8 @@ def select__element_kind_test(self: XPathFunction, context: ta.ContextType = Non
                         yield item
                     elif self[0].symbol != '*':
                         yield item
-                elif is_instance(item.typed_value, type_annotation, self.parser):
+                elif type_annotation == XSD_ANY_TYPE or \
+                        is_instance(item.typed_value, type_annotation, self.parser):
                     yield item
 
 
